@@ -20,7 +20,7 @@ DESCRIPTION = {
 RANK = {1: 1, 4: 1, 3: 2, 2: 3, 0: 4}   # CONNECTING/PROXY_CONNECTING, OPEN, CLOSING, CLOSED
 RANK_NAME = {1: "connecting", 2: "open", 3: "closing", 4: "closed"}
 
-REASONS = ["", "bye", "x" * 122, "x" * 123, "x" * 124, "x" * 200, "x" * 122 + "é", "x" * 121 + "€", "x" * 120 + "😀", "é" * 61 + "ab", "€" * 41, "😀" * 31, "日本語"]
+REASONS = ["", "x", "é", "ab", "bye", "x" * 122, "x" * 123, "x" * 124, "x" * 200, "x" * 122 + "é", "x" * 121 + "€", "x" * 120 + "😀", "é" * 61 + "ab", "€" * 41, "😀" * 31, "日本語"]
 
 
 def plan(tier, seed):
